@@ -69,7 +69,7 @@ class Scratch:
             if not os.path.exists(path):
                 txt = open(os.path.join(self.src, lib)).read()
                 for n in names:
-                    rx = re.compile(r'^((?:static\s)?[A-Za-z_][^;{}()#]*?\b)' + re.escape(n) + r'(\s*\(([^;{}]*)\)\s*)\{', re.M)
+                    rx = re.compile(r'^(CJSON_PUBLIC\([^)]*\)\s*|(?:static\s)?[A-Za-z_][^;{}()#]*?\b)' + re.escape(n) + r'(\s*\(([^;{}]*)\)\s*)\{', re.M)
                     m = rx.search(txt)
                     if not m:
                         raise RuntimeError('cannot find the definition of %s in %s' % (n, lib))
